@@ -559,3 +559,85 @@ def run_fp(chk, A):
                    key="fpforms|%s|%s|op%d" % (names[rid], "element" if element_form else "plain", k))
     chk.floor(R + ":sites", n_sites, 6)
     chk.floor(R + ":rows", n_rows, 40)
+
+
+def run_scalar_bit(chk, A):
+    """R-SCALAR-SHAPE-BIT-PACKED: where a scalar register shape can be accepted, the scalar bit of the SizeOp is encoded"""
+    R = "R-SCALAR-SHAPE-BIT-PACKED"
+    chk.rule(R, "a64 _emit: for every call of element_type_to_size_op() whose kVO argument - over all instruction rows of the case - accepts a "
+                "scalar register shape (B / H / S / D as a whole register), the SizeOp local it defines has its scalar() (or qs()) packed into "
+                "the opcode wherever its q() / size() are: a by-element or regular form that accepts `h1, h2, v3.h[7]` but packs only Q encodes "
+                "the vector form of the same instruction")
+    emit, regions, dbf = A["emit"], A["regions"], A["db"]
+    acc, vo, grid = accepted_sets(chk, A)
+    T = dbf["tables"]
+    rows = T["asmjit::a64::InstDB::_inst_info_table"]["value"]
+    enc_name = {v: n for n, v in dbf["enums"]["asmjit::a64::InstDB::EncodingId"]["enumerators"]}
+    case_arrays = {}
+    for i, x in emit.ex.items():
+        if x["k"] == "subscript":
+            idx = emit.e(emit.strip(x["idx"]))
+            base = emit.e(emit.strip(x["base"]))
+            if idx and idx["k"] == "ref" and idx.get("name") == "encoding_index" and base and base["k"] == "ref" and base.get("dk") == "global":
+                for reg in regions.group_of_line(x["l"]):
+                    case_arrays.setdefault(reg, set()).add(base["qn"])
+    SC = {"B", "H", "S", "D", "Q"}
+    par = emit.parent_map()
+    n = 0
+    sites = []
+    for i, x in sorted(emit.calls(lambda x: x.get("cn") == "element_type_to_size_op" and len(x.get("args", [])) == 3)):
+        a0 = emit.e(emit.strip(x["args"][0]))
+        fld = a0.get("field") if a0 is not None and a0["k"] == "member" else None
+        const = a0.get("cv") if a0 is not None and fld is None and isinstance(a0.get("cv"), int) else None
+        regs = [r for r in regions.group_of_line(x["l"]) if r.startswith("case:")]
+        arrays = set()
+        for r in regs:
+            arrays |= case_arrays.get(r, set())
+        vois = set()
+        if fld is not None and len(arrays) == 1:
+            for rid in range(1, len(rows)):
+                if "case:%s" % enc_name.get(rows[rid]["_encoding"]) in regs:
+                    data = T[next(iter(arrays))]["value"][rows[rid]["_encoding_data_index"]]
+                    if fld in data:
+                        vois.add(data[fld])
+        elif const is not None:
+            vois.add(const)
+        scalar_rows = sorted(vo.get(v, str(v)) for v in vois if acc.get(v, set()) & SC)
+        if not scalar_rows:
+            continue
+        # the local that receives the SizeOp
+        did = None
+        j = i
+        while j in par and did is None:
+            j = par[j]
+            y = emit.e(j)
+            if y is not None and y["k"] == "decl":
+                for v in y["vars"]:
+                    if v.get("init") is not None and i in set(emit.walk(v["init"])):
+                        did = v["did"]
+        if did is None:
+            continue
+        used = set()
+        for k_, y in emit.ex.items():
+            if y["k"] == "mcall" and y.get("obj") is not None and (emit.e(emit.strip(y["obj"])) or {}).get("did") == did:
+                used.add(y.get("cn"))
+        if not (used & {"q", "qs", "size", "scalar"}):
+            continue
+        sites.append((i, tuple(regs), fld or vo.get(const), scalar_rows, used))
+    # an encoding class has a scalar bit when one of the SizeOp locals of the same case packs scalar() / qs(); only then is a sibling
+    # that accepts scalar shapes and packs q() / size() alone a contradiction (MOVI-class encodings have no such bit)
+    with_bit = set()
+    for i, regs, what, scalar_rows, used in sites:
+        if used & {"scalar", "qs"}:
+            with_bit |= set(regs)
+    for i, regs, what, scalar_rows, used in sites:
+        if not (set(regs) & with_bit):
+            continue
+        n += 1
+        ok = bool(used & {"scalar", "qs"})
+        chk.ob(R, "%s|%s@%d" % ("+".join(r[5:] for r in regs)[:40], what, emit.line_of(i)), ok, loc=emit.loc(i),
+               detail="the shapes accepted here include scalar registers (%s) and another branch of the same case packs the scalar bit, but here "
+                      "only %s of the SizeOp are packed: a scalar operand is encoded as the vector form (bit 28 clear)" %
+                      (", ".join(scalar_rows)[:80], sorted(used & {"q", "size"})), key="scalarbit|%d" % emit.line_of(i))
+    chk.floor(R + ":sites", n, 5)
+    return n
